@@ -190,9 +190,23 @@ func c04GenFile(r *Rng, idx int, le string, nfiles int) c04File {
 	// strings and comments inside the statement itself, between identifiers
 	emit(nx(), fmt.Sprintf("local %sinl = \"é\\t😀\" .. %salpha .. [[x]] .. %sbeta --[[ 中 ]] .. %sGlob.field", pre, pre, pre, pre))
 	emit(nx(), fmt.Sprintf("print(%sinl, '\\'', %salpha, \"\\u{1F600}\", %sbeta, [==[ ]] ]==], %sinl)", pre, pre, pre, pre))
+	// the file is also a module: it returns a table whose members the next file reaches through the variable that holds
+	// require's result (members of required modules are matched by a path of their own in find-references / rename)
+	emit(nx(), fmt.Sprintf("local %sMod = {}", pre))
+	emit(nx(), fmt.Sprintf("function %sMod.%smodfn(%smq) return %smq end", pre, pre, pre, pre))
+	emit(nx(), fmt.Sprintf("%sMod.%smodval = 7", pre, pre))
+	emit(nx(), fmt.Sprintf("print(%sMod.%smodfn(%sMod.%smodval))", pre, pre, pre, pre))
+	if nfiles > 1 {
+		o := fmt.Sprintf("f%d", (idx+1)%nfiles)
+		emit(nx(), fmt.Sprintf("local %sreq = require(\"c%d\")", pre, (idx+1)%nfiles))
+		emit(nx(), fmt.Sprintf("print(%sreq.%smodfn(1), %sreq.%smodval)", pre, o, pre, o))
+		emit(nx(), fmt.Sprintf("%sreq.%smodval = %sreq.%smodfn(2)", pre, o, pre, o))
+	}
 	if r.Chance(1, 4) {
 		// a near-valid tail: one syntax error at the end of the file
 		sb.WriteString("local " + pre + "broken = (" + le)
+	} else {
+		sb.WriteString("return " + pre + "Mod" + le)
 	}
 	return c04File{Rel: fmt.Sprintf("c%d.lua", idx), Text: sb.String(), LineCls: cls, Anno: anno}
 }
@@ -340,8 +354,8 @@ func c04Check(c *Ctx, files []c04File, fm map[string]string, le, tag string) {
 			if t.Idx > 0 {
 				prev = pr.Lex.Toks[t.Idx-1].Text
 			}
-			if prev == "." || prev == ":" || luaBuiltins[t.Val] || t.Val == "field" || t.Val == "other" {
-				continue
+			if (prev == "." && !strings.Contains(t.Val, "mod")) || prev == ":" || luaBuiltins[t.Val] || t.Val == "field" || t.Val == "other" {
+				continue // (members of a module table - f<i>modfn, f<i>modval - are queried)
 			}
 			p := posAt(src, t.Off)
 			ctx := fmt.Sprintf("query on %s at %v", t.Val, p)
@@ -351,7 +365,13 @@ func c04Check(c *Ctx, files []c04File, fm map[string]string, le, tag string) {
 				return
 			}
 			for _, l := range locs {
-				checkRange("definition", ws.Rel(l.URI), l.Range, t.Val, ctx)
+				wantDef := t.Val
+				if prev == "." {
+					// a member the tool cannot resolve answers with the declaration of the table variable (a documented
+					// fallback): the answer must be a well-formed range of its document, whatever it names
+					wantDef = ""
+				}
+				checkRange("definition", ws.Rel(l.URI), l.Range, wantDef, ctx)
 			}
 			refs, _, err := srv.References(uri, p.Line, p.Character)
 			if err != nil {
